@@ -814,6 +814,11 @@ def gen_C04(tier, seed):
                        f"copy_from_slice {fl(uniq(n, 5000))}", f"clone_from_slice {fl(uniq(n, 6000))}",
                        f"copy_from_toodee {cc} {rr} {fl(uniq(n, 7000))}",
                        f"copy_within 0 0 {max(cc - 1, 0)} {max(rr - 1, 0)} {1 if cc > 1 else 0} {1 if rr > 1 else 0}",
+                       # the other three directions of an overlapping copy, and the row pair asked for in descending order
+                       f"copy_within {1 if cc > 1 else 0} {1 if rr > 1 else 0} {cc} {rr} 0 0",
+                       f"copy_within 0 {1 if rr > 1 else 0} {max(cc - 1, 0)} {rr} {1 if cc > 1 else 0} 0",
+                       f"copy_within {1 if cc > 1 else 0} 0 {cc} {max(rr - 1, 0)} 0 {1 if rr > 1 else 0}",
+                       f"row_pair {max(rr - 1, 0)} 0",
                        f"translate {cc // 2} {rr // 2}", f"translate {max(cc - 1, 0)} 1" if rr > 1 else "translate 0 0",
                        f"setu {max(cc - 1, 0)} {max(rr - 1, 0)} 4245" if n else "fill 1", f"rowsetu {max(rr - 1, 0)} 0 4246" if n else "fill 2",
                        "flip_rows", "flip_cols",
